@@ -118,6 +118,13 @@ example : isOperatorSupported badMaxPoolStride4 = .cpu n!"constraint_stride_rang
 example : isOperatorSemanticValid badAddNoQuant = .cpu n!"constraint_tens_quant_none_check" := by decide +kernel
 example : isOperatorSupported badConvBias41 = .cpu n!"constraint_bias_40bit" := by decide +kernel
 
+/-- Witness for repair C13-27 (`constraint_bias_40bit`): the criterion the unrepaired code used, `len(bin(v)[2:]) <= 40`
+    (`Sup.binLen`), accepts 2^39 - which is outside the signed 40-bit range `encode_bias` asserts - and rejects -2^39,
+    which is inside it. The model (`Sup.bias_40bit`) uses the signed range `Sup.fitsSigned`. -/
+theorem bias_digit_count_criterion_witness :
+    Sup.binLen (2 ^ 39) ≤ 40 ∧ Sup.fitsSigned 40 (2 ^ 39) = false ∧
+    40 < Sup.binLen (-(2 ^ 39)) ∧ Sup.fitsSigned 40 (-(2 ^ 39)) = true := by decide +kernel
+
 
 /-! ## Pipeline level: every source operator is accounted for exactly once, where the report says
 
